@@ -45,9 +45,29 @@ func submitAndJudge(c *Ctx, w *world.World, v *world.Node, sub c15Sub, wit map[s
 	var pan interface{}
 	func() {
 		defer func() { pan = recover() }()
-		if sub.Label == "approve-participation" {
+		switch {
+		case v.CLI != nil && sub.Label == "approve-participation":
+			err = v.CLI.Approve(sub.Op.ID)
+		case v.CLI != nil:
+			// the result file is handed to `dc4bc_cli read_operation_result`
+			bz, _ := json.Marshal(sub.Op)
+			path := filepath.Join(v.CLI.Dir, fmt.Sprintf("submission_%d.json", v.CLI.Calls["read_operation_result"]))
+			if werr := os.WriteFile(path, bz, 0o600); werr != nil {
+				err = werr
+				break
+			}
+			err = v.CLI.SubmitFile(path)
+			c.Add("submissions_through_the_dc4bc_cli_binary", 1)
+		case v.API != nil && sub.Label == "approve-participation":
+			err = v.API.Approve(sub.Op.ID)
+		case v.API != nil:
+			// the operator uploads the file: POST /handleProcessedOperationJSON
+			bz, _ := json.Marshal(sub.Op)
+			err = v.API.Submit(bz)
+			c.Add("submissions_through_the_rest_api", 1)
+		case sub.Label == "approve-participation":
 			err = v.Svc.ApproveParticipation(&dto.OperationIdDTO{OperationID: sub.Op.ID})
-		} else {
+		default:
 			err = v.Svc.ProcessOperation(world.OpToDTO(sub.Op))
 		}
 	}()
@@ -280,7 +300,9 @@ func c15ConcurrentDuplicates(c *Ctx) {
 
 func runC15(c *Ctx, wi int, seed uint64) {
 	n, t := 2+wi%2, 2
-	w, err := world.NewWorld(world.Options{N: n, T: t, Seed: seed})
+	// worlds 2,3 mod 4: the operator uses the REST API for everything it does
+	// worlds 7 mod 8: through the dc4bc_cli binary (one child process per command) in front of the REST API
+	w, err := world.NewWorld(world.Options{N: n, T: t, Seed: seed, ViaHTTP: wi%4 >= 2, ViaCLI: wi%8 == 7})
 	if err != nil {
 		c.Inconclusive("world: %v", err)
 		return
